@@ -8,12 +8,13 @@ CONSTANT Slice
 Quick == Slice = "quick"
 ResE(name, en, ed, lm) == [name |-> name, parent |-> 0, leaf |-> TRUE, effN |-> en, effD |-> ed, cal |-> "default", hours |-> NoHours,
          leaves |-> <<>>, tz |-> << <<0, 0>> >>, limits |-> <<>>, lmul |-> lm]
-Effs == IF Quick THEN {900, 2700, 4500} ELSE {900, 1800, 2700, 4500, 5400}
-Codes == {<<1, 1>>, <<2, 1>>, <<1, 2>>} \X Effs \X Effs \X Effs
+Tiny == Slice = "tiny"
+Effs == IF Tiny THEN {900, 4500} ELSE IF Quick THEN {900, 2700, 4500} ELSE {900, 1800, 2700, 4500, 5400}
+Codes == (IF Tiny THEN {<<2, 1>>, <<1, 2>>} ELSE {<<1, 1>>, <<2, 1>>, <<1, 2>>}) \X Effs \X Effs \X Effs
          \X {<<1>>} \X {<<1>>, <<2>>} \X {<<1>>, <<2>>}
          \X {<<>>, <<Dep(1, 0, FALSE)>>, <<Dep(1, 1800, FALSE)>>}
          \X {<<>>, <<Dep(1, 0, FALSE)>>, <<Dep(2, 0, FALSE)>>, <<Dep(2, 900, FALSE)>>}
-         \X (IF Quick THEN {400, 600} ELSE {400, 500, 600})
+         \X (IF Tiny THEN {400} ELSE IF Quick THEN {400, 600} ELSE {400, 500, 600})
 Build(c) == LET e == c[1] IN
    Frame(<<ResE("r", 1, 1, e[1]), ResE("q", e[1], e[2], 1)>>,
          <<Task(1, 0, c[2], 500, c[5], <<>>, -1), Task(2, 0, c[3], 500, c[6], c[8], -1), Task(3, 0, c[4], c[10], c[7], c[9], -1)>>, e[1])
